@@ -86,7 +86,15 @@ class Loopback:
         if exc is not None or conn2 is not conn:
             return None, [], exc or "reset-on-send"
         frame = bytes(conn.out[before:])
-        rig.feed([frame + tail])
+        # how the bytes travel is not part of the message: every fourth frame comes back in two pieces (cut before the
+        # last byte, between the check bytes' neighbours, after the first byte, in the middle), one loop turn apart
+        self.n_trips = getattr(self, "n_trips", 0) + 1
+        data = frame + tail
+        if self.n_trips % 4 == 0 and len(data) > 3:
+            cut = [len(data) - 1, len(data) - 2, 1, len(data) // 2, len(data) - 3][(self.n_trips // 4) % 5]
+            rig.feed([data[:cut], data[cut:]], turns=1)
+        else:
+            rig.feed([data])
         hdrs, msgs, reset, unh = rig.take()
         return frame, list(zip(hdrs, msgs)), ("reset" if reset else None)
 
